@@ -738,11 +738,11 @@ inline int Replay(const std::string& r, Result& res) {
 inline void Run(const verif::Args& args, Result& res) {
     res.property = "C19";
     bool th = args.thorough();
-    int bound = th ? 5 : 3;
+    int bound = th ? 10 : 4;
     if (args.opt.count("bound"))
         bound = std::atoi(args.opt.at("bound").c_str());
     size_t nscen = Scenarios().size();
-    double deadline = args.deadline_s > 0 ? args.deadline_s : (th ? 1200 : 150);
+    double deadline = args.deadline_s > 0 ? args.deadline_s : (th ? 2400 : 200);
     std::vector<std::string> per;
     RunPool((int)nscen,
             [&](int idx, int, WorkerBlock& blk, Result& local) {
